@@ -27,12 +27,15 @@ async def _read_all(stream: bytes, chunks, max_calls):
         async def feed():
             nonlocal fed
             pos = 0
-            for n, yields in chunks:
+            for ch in chunks:
+                n, yields = ch[0], ch[1]
                 reader.feed_data(stream[pos:pos + n])
                 pos += n
                 fed = pos
                 for _ in range(yields):
                     await asyncio.sleep(0)
+                if len(ch) > 2 and ch[2]:
+                    await asyncio.sleep(ch[2])          # a pause on the line, in (virtual) seconds
             if pos < len(stream):
                 reader.feed_data(stream[pos:])
                 fed = len(stream)
